@@ -334,6 +334,9 @@ fn cleanup_escape_ws(parts: &mut [StringPart]) {
         if let StringPart::Raw(s) = item
             && s.starts_with('\\')
             && s.ends_with(' ')
+            // An escaped space is `\ `; that space is the character itself,
+            // not the terminator of a hex escape.
+            && s != "\\ "
         {
             match t_iter.peek() {
                 None => {
